@@ -86,6 +86,7 @@ def check(chk):
     c18.r182_groups(chk, m)
     from . import shared
     shared.paux_rules(chk, m, 'R14.4')
+    r146(chk, m)
     chk.decline('uniqueness of ids per file and reachability through the table of contents for concrete documents (runtime)')
 
 
@@ -197,6 +198,10 @@ def r142(chk, m):
     cases = [('own file', 'sec', None, 'sect1.html'), ('own file, base-url', 'sec', 'http://h/', 'http://h/sect1.html'),
              ('inside a file', 'sub', None, 'sect1.html#sub1'), ('two levels inside a file', 'eq', None, 'sect1.html#eq:1'),
              ('inside the document file', 'top', None, 'index.html#top1'), ('inside a file, base-url', 'eq', 'http://h', 'http://h/sect1.html#eq:1'),
+             ('own file, base-url with a directory', 'sec', 'http://h/dir', 'http://h/dir/sect1.html'),
+             ('inside a file, base-url with a directory and a slash', 'eq', 'http://h/dir/', 'http://h/dir/sect1.html#eq:1'),
+             ('inside a file, base-url with a directory', 'sub', 'http://h/a/b', 'http://h/a/b/sect1.html#sub1'),
+             ('own file, empty base-url', 'sec', '', 'sect1.html'),
              ('no ancestor with a file', 'orphan', None, '#o1'), ('restored from another document', 'restored', None, 'other.html#r1')]
     for label, which, base, want in cases:
         nodes = tree(base)
@@ -230,3 +235,57 @@ def r143(chk, m):
                                 '%s links to the referenced object without testing that the reference resolved: a dangling \\ref '
                                 'would link to the placeholder' % tpl.key, '%s:%d' % (f.replace(REPO + '/', ''), o.line), str(list(o.guards)))
     need(n >= 3, 'reference templates not found')
+
+
+def r146(chk, m):
+    """Post-processing of the finished pages keeps every link target."""
+    from . import domheap as D
+    R = chk.rule('R14.6', 'post-processing of a finished page (processFileContent of the HTML5 and XHTML renderers, interpreted on sample '
+                 'pages): every element that carries an id or a name - also an empty anchor alone in its paragraph or table cell - is '
+                 'still there afterwards, with the same id; truly empty paragraphs may go', 2)
+    import html.parser as HP
+
+    class Ids(HP.HTMLParser):
+        def __init__(self):
+            HP.HTMLParser.__init__(self)
+            self.ids = []
+
+        def handle_starttag(self, tag, attrs):
+            for k, v in attrs:
+                if k in ('id', 'name'):
+                    self.ids.append('%s:%s=%s' % (tag, k, v))
+        handle_startendtag = handle_starttag
+    page = ('<h1 id="h">T</h1><p><a id="idx1"></a></p><p> \n </p><p><a name="t2" id="t2"></a> </p><p>text<a id="idx3"></a></p>'
+            '<table><tr><td><a id="c1"></a></td><td> </td><th id="th1"></th></tr></table><p><span id="s1"></span><span id="s2"></span></p><p></p>')
+    p0 = Ids()
+    p0.feed(page)
+    want = sorted(p0.ids)
+    for mod, cname in (('plasTeX.Renderers.HTML5', 'HTML5'), ('plasTeX.Renderers.XHTML', 'XHTML')):
+        cls = m.cls(mod, cname)
+        fn = m.find_method(cls, 'processFileContent')
+        need(fn is not None, '%s.processFileContent not found' % cname)
+        chk.analysed(fn)
+
+        class H(D.DomHooks):
+            def call(self, interp, node, fname, args, kwargs, state):
+                if isinstance(node.func, ast.Attribute) and node.func.attr == 'processFileContent' and len(args) == 3 and text(node.func.value) != 'self':
+                    return args[2]          # the base renderer's post-processing (decided for C12): identity on a page without placeholders
+                return D.DomHooks.call(self, interp, node, fname, args, kwargs, state)
+        doc = A.Obj('document', {'config': {'html5': {'filters': []}, 'files': {'escape-high-chars': False}}, 'rendererdata': {'html5': {}}})
+        it = A.Interp(model=m, scope=fn, hooks=H(m, cls), max_iter=8, exc_edges=False, inline=4, heap=True, precise_exc=True)
+        outs = it.run_function(fn, env={'self': A.Obj('renderer', {}, cls=cls), 'document': doc, 's': page})
+        key = '%s.processFileContent keeps every id' % cname
+        if it.imprecise or it.unknown_branches:
+            chk.undecided(R, key, '; '.join((it.imprecise + it.unknown_branches)[:2]), chk.where(fn))
+            continue
+        got = set()
+        for kind, s2, v in outs:
+            if kind != 'return' or not isinstance(v, str):
+                got.add('%s %r' % (kind, v))
+                continue
+            p1 = Ids()
+            p1.feed(v)
+            missing = [x for x in want if x not in p1.ids]
+            got.add('all kept' if not missing else 'lost: %s' % missing)
+        chk.decide(R, key, got, {'all kept'}, 'after post-processing the sample page %s; expected every id/name kept - a link to it would have no '
+                   'target' % sorted(got), chk.where(fn))
